@@ -795,6 +795,14 @@ def gen_type(rng, world: World, kinds, scalars, depth=0, max_depth=3, top=True, 
     if k in ('dict', 'tdict', 'tmap'):
         return [k, ['s', rng.choice([s for s in scalars if s in ('str', 'int')] or ['str'])], sub()]
     if k == 'union':
+        if rng.random() < 0.35:
+            # members that share a runtime container type but convert / serialise their elements differently
+            shape = rng.choice(['list', 'tlist', 'dict', 'vtuple'])
+            elems = rng.sample([e for e in ('int', 'str', 'Fraction', 'date', 'float', 'Decimal') if e in scalars] or ['int', 'str'],
+                               2) if len(set(scalars) & {'int', 'str', 'Fraction', 'date', 'float', 'Decimal'}) >= 2 else ['int', 'str']
+            if shape == 'dict':
+                return ['union'] + [['dict', ['s', 'str'], ['s', e]] for e in elems]
+            return ['union'] + [[shape, ['s', e]] for e in elems]
         return ['union'] + [sub() for _ in range(rng.choice([2, 2, 3]))]
     if k == 'lit':
         pool = ['a', 'b', 'c', 1, 2, True, None, 'é']
